@@ -3,7 +3,7 @@ import subprocess
 import vlib
 
 RULE = ("reader: every text 'comment? p-line (comment? edge-line)^L comment?' with n in 0..3, L edge lines each (e|a) u v [w] with u,v in 0..4 (thorough: -1..4; names outside 1..n are undeclared), "
-        "w in {omitted,1,15,2.5,100[,0.125,7]}, comment in {none,'c ..','# ..'} at every position, final newline present/absent; read through fmemopen and compared field by field "
+        "w in {omitted,1,15,2.5,100,1.5e1[,0.125,7,2.5E-1,1e+2]}, comment in {none,'c ..','# ..'} at every position, final newline present/absent; read through fmemopen and compared field by field "
         "with the generator's model (undeclared vertex must raise std::system_error). validators: every multigraph on 1..3 vertices with up to E edges (loops, parallel edges in both "
         "orientations) x weights {-1,0,0.5,1}. distinct_nontrivial = distinct texts with >= 1 edge line / multigraphs with >= 1 edge")
 
@@ -23,7 +23,7 @@ def run(tier):
     if tier == "thorough":
         plan += [("reader L<=3, u,v in 1..3, 3 weight spellings, <=1 comment line", ["--mode", "reader", "--lines", 3, "--maxv", 3, "--nweights", 3, "--max-comments", 1]),
                  ("reader L<=2, names -1..4", ["--mode", "reader", "--lines", 2, "--minv", -1, "--nweights", 3, "--max-comments", 1]),
-                 ("reader L<=2, 7 weight spellings", ["--mode", "reader", "--lines", 2, "--nweights", 7, "--max-comments", 2]),
+                 ("reader L<=2, 10 weight spellings", ["--mode", "reader", "--lines", 2, "--nweights", 10, "--max-comments", 2]),
                  ("validators, <=5 edges", ["--mode", "validators", "--max-edges", 5])]
     for bound, args in plan:
         r = vlib.run_harness(b, list(args) + ["--seed", vlib.seed(), "--deadline-s", int(c.remaining())])
